@@ -22,7 +22,7 @@ ASSUMPTIONS = ["decimal grids (class B): Brownian increments over intervals whos
                "~sqrt(ulp); the 1e-9 bound is therefore demanded with backward query times snapped to the forward "
                "grid times (unsnapped: 1e-6)"]
 REQUIRED_COUNTERS = ["class_A", "class_B", "multi_output_cases", "noise_diagonal", "noise_scalar", "noise_additive",
-                     "noise_general"]
+                     "noise_general", "loss_subset_not_last", "loss_subset_one_interior"]
 THRESHOLDS = {"A": 1e-9, "B_snapped": 1e-9, "B_unsnapped": 1e-6, "C": 1e-9}
 
 
@@ -65,8 +65,21 @@ def run_case(case):
     gen = torch.Generator().manual_seed(case["rseed"])
     y0v = torch.randn(B, d, generator=gen)
     w = torch.randn(len(tsl), B, d, generator=gen)
+    # losses on subsets of the output times (exact zeros elsewhere): dense / not on the final time / one interior time /
+    # only the final time
+    subset = rng.choice(["all", "all", "not_last", "one_interior", "last"]) if len(tsl) > 2 else "all"
+    mask = torch.ones(len(tsl))
+    if subset == "not_last":
+        mask[-1] = 0
+    elif subset == "one_interior":
+        mask[:] = 0
+        mask[rng.randrange(1, len(tsl) - 1)] = 1
+    elif subset == "last":
+        mask[:-1] = 0
+    w = w * mask.reshape(-1, 1, 1)
+    cnt["loss_subset_" + subset] = 1
     entropy = rng.randrange(1, 10 ** 9)
-    ctx = f"noise={nt} B={B} d={d} m={sde.m} dt={dt} ts={tsl}"
+    ctx = f"noise={nt} B={B} d={d} m={sde.m} dt={dt} ts={tsl} loss_on={subset}"
 
     def mk():
         return torchsde.BrownianInterval(t0=tsl[0], t1=tsl[-1], size=(B, sde.m), entropy=entropy)
